@@ -344,4 +344,36 @@ theorem rejectCheck_spec (r : Rule) (tm tk : LRU) (hs : Sync tm tk) (now : Int) 
           refine ⟨hs.of_acc a1 a2, ?_, Or.inr ⟨a1, a2⟩⟩
           rw [cellR_some (LRU.find_touch_self _ _ _) (LRU.find_touch_self _ _ _)]
 
+/-- the same for the throttling controller (it only uses the time cache) -/
+theorem throttleCheck_spec (r : Rule) (tm : LRU) (hp : 0 < tm.size) (now : Int) (u : Val) (b : Int) :
+    ((throttleCheck r tm now u b).1.find u, (throttleCheck r tm now u b).2)
+      = svThrottle (tokenCount r u) (interval (tokenCount r u) r.D b) r.mq (tm.find u) now ∧
+    ((throttleCheck r tm now u b).1 = tm ∨ LRU.Acc u tm (throttleCheck r tm now u b).1) := by
+  unfold throttleCheck svThrottle
+  dsimp only
+  by_cases hT : tokenCount r u ≤ 0
+  · simp only [hT, if_true]; exact ⟨trivial, Or.inl trivial⟩
+  simp only [hT, if_false]
+  cases h1 : tm.find u with
+  | none =>
+    rw [LRU.addIfAbsent_none _ h1]
+    dsimp only
+    exact ⟨by rw [LRU.find_push_self _ _ _ hp], Or.inr (LRU.acc_push tm u now h1)⟩
+  | some last =>
+    rw [LRU.addIfAbsent_some _ h1]
+    dsimp only
+    have a1 := LRU.acc_touch tm u last h1
+    by_cases h2 : w (last + interval (tokenCount r u) r.D b) ≤ now ∨
+        w (w (last + interval (tokenCount r u) r.D b) - now) < r.mq
+    · simp only [h2, if_true]
+      by_cases h3 : w (w (last + interval (tokenCount r u) r.D b) - now) > 0
+      · simp only [h3, if_true]
+        refine ⟨?_, Or.inr (LRU.acc_set a1 _)⟩
+        rw [LRU.find_set_self, LRU.find_touch_self]; rfl
+      · simp only [h3, if_false]
+        refine ⟨?_, Or.inr (LRU.acc_set a1 _)⟩
+        rw [LRU.find_set_self, LRU.find_touch_self]; rfl
+    · simp only [h2, if_false]
+      exact ⟨by rw [LRU.find_touch_self], Or.inr a1⟩
+
 end Sentinel.Hot
